@@ -266,6 +266,35 @@ pub fn run(ctx: &Ctx) -> i32 {
     let k = ctx.tier.pick(3, 4);
     let inputs = gen(k, true);
     let mut acc = par_items(&inputs, check);
+    // an option node placed in a tree through the public types has no meaning inside an
+    // expression: compile refuses it (it must not silently become a constant, which would lose
+    // the option)
+    {
+        use speclib::ast::{Action, Expr, Global, Test};
+        let name = || Expr::Test(Test::Name("x".into()));
+        for g in [Global::Depth, Global::Threads(3), Global::MaxDepth(2), Global::MinDepth(1)] {
+            for tree in [
+                Expr::Global(g.clone()),
+                Expr::and(name(), Expr::Global(g.clone())),
+                Expr::or(Expr::Global(g.clone()), Expr::Action(Action::Print)),
+                Expr::not(Expr::Global(g.clone())),
+            ] {
+                acc.states += 1;
+                acc.transitions += 1;
+                if let Some(real) = crate::conv::expr_to_real(&tree) {
+                    for (d, th) in [(false, None), (true, Some(2u32))] {
+                        if let crate::subject::C::Ok(_) = crate::subject::compile_render(&real, &crate::subject::options(d, th), "/dev") {
+                            acc.violate(Violation::new(
+                                "C13:option-node-in-a-tree-compiled",
+                                format!("compile({}) succeeds: the option node was turned into something else and the option is lost", tree.show()),
+                                json!({"kind": "tree", "tree": tree}),
+                            ));
+                        }
+                    }
+                }
+            }
+        }
+    }
     acc.sample(json!({"input": inputs[7]}));
     acc.sample(json!({"input": inputs[inputs.len() / 2]}));
     finish(
